@@ -6,6 +6,7 @@ CONSTANTS
   MaxBlk = 1
   PushChecked = TRUE
   AtomicAppend = TRUE
+  CacheFirst = TRUE
   KeepCommittedInCache = FALSE
 VIEW view
 INVARIANTS NoDuplicates HeldIsCached WithinBounds NoReofferCommitted
